@@ -6,7 +6,7 @@ ALL = ["C%02d" % i for i in range(1, 21)]
 
 # id -> dict(technique, text, note, design_ref, engine)
 CLAIMED = {
- "C01": dict(technique="model-based property testing (proptest histories vs Vec model over 15 item algebras incl. a free monoid and a lazy item with a zero-sized modifier type), debug-assertion and release builds, + small-scope exhaustive histories",
+ "C01": dict(technique="model-based property testing (proptest histories vs Vec model over 19 item algebras incl. a free monoid, a lazy item with a zero-sized modifier type, Min/Max over i64 with the type's extreme values and over f64), debug-assertion and release builds, + small-scope exhaustive histories",
              text="Exploration: generated and exhaustively enumerated operation histories are interpreted against the real Segtree and a plain-array model in lock-step; every ask is compared with the in-order fold, for commutative and free/non-commutative algebras and nested Combinators. Establishes 'held on everything explored', never absence.",
              note="Trusted: the harness item algebras (law-checked each run), the Vec model, proptest's generator. Bounds: histories of <=60 (quick) / <=400 (thorough) ops on n<=130; short histories on large trees (n<=2^12 / 2^15) and on huge SumAdd trees (n about 2^21..2^22, prefix-sum oracle).",
              design_ref="DESIGN.md §4 C01", engine="E1+E2+E3"),
